@@ -245,7 +245,11 @@ class BigEdge:
         if chord_squared == 0:
             return False
         cross = [(v.x - x0) * dy - (v.y - y0) * dx for v in self.vertices]
-        return bool(np.all(np.abs(cross) <= 1e-12 * chord_squared))
+        # rounding of the coordinates themselves: collinear points far from the origin are collinear up to
+        # a few ulps of their coordinates times the chord length
+        largest = max(max(abs(v.x), abs(v.y)) for v in self.vertices)
+        tolerance = 1e-12 * chord_squared + 16 * np.finfo(float).eps * largest * np.sqrt(chord_squared)
+        return bool(np.all(np.abs(cross) <= tolerance))
 
     def get_vertex_object_by_id(self, vid: int) -> object:
         """
